@@ -2,7 +2,11 @@
    the destination set-up is a run of container operations, so its effect is computed on the
    abstract array; from that: convert preserves the invariant, the result of a conversion (in
    place or not) is described pointwise, in-place equals out-of-place, the result of a conversion
-   to Zin is a clean 1 x ports object. *)
+   to Zin is a clean 1 x ports object (corollaries in ConvertTheorems.v).
+   Everything is proved for both values of ConvertModel's dd2_fixed (finding DD2 present /
+   repaired): the set-up is stage 1 (setup_spec1: init, frequencies, impedances, by induction over
+   the per-frequency loop), stage 2 (switch: the repair's _vnadata_convert_to_fz0, to_fz0_refines)
+   and stage 3 (setup_spec2: save options); setup_perf is the resulting z0 mode. *)
 Require Import List ZArith Bool Lia.
 Require Import LV.Data.DataModel LV.Data.ArraySpec LV.Data.DataProofs LV.Data.RefineProofs LV.Data.ConvertModel.
 Import ListNotations.
@@ -17,6 +21,7 @@ Ltac bd :=
 Section ConvertRefine.
 Variable V : Type.
 Variables vzero vdef : V.
+Variable dd2_fixed : bool.
 Notation vd := (vd V).
 Notation arr := (arr V).
 Notation Inv := (Inv V vzero vdef).
@@ -114,33 +119,49 @@ Proof.
 Qed.
 
 Definition copyz (din : vd) (np : nat) : bool := negb (Nat.ltb (ports V din) np).
-Definition setup_perf (din : vd) (np : nat) : bool :=
+(* z0 mode of the destination after the copying of the impedances alone *)
+Definition copied_perf (din : vd) (np : nat) : bool :=
   copyz din np && per_f V din && negb (Nat.eqb (freqs V din) 0).
+(* z0 mode of the destination after the whole set-up: with the repair DD2 the mode of the source *)
+Definition setup_perf (din : vd) (np : nat) : bool :=
+  if dd2_fixed then per_f V din else copied_perf din np.
 
-(* what the set-up leaves in the destination, whatever the destination held before *)
-Definition setup_facts (din : vd) (nr nc : nat) (b : arr) : Prop :=
+Lemma setup_perf_true din np : setup_perf din np = true -> per_f V din = true.
+Proof.
+  unfold setup_perf, copied_perf. destruct dd2_fixed; [auto|].
+  destruct (per_f V din); [reflexivity|]. rewrite andb_false_r. discriminate.
+Qed.
+
+(* what the set-up leaves in the destination, whatever the destination held before;
+   pf = the z0 mode reached *)
+Definition stage_facts (pf : bool) (din : vd) (nr nc : nat) (b : arr) : Prop :=
   let np := Nat.max nr nc in
   a_ty V b = VUNDEF /\ a_rows V b = nr /\ a_cols V b = nc /\ a_freqs V b = freqs V din /\
-  a_perf V b = setup_perf din np /\
+  a_perf V b = pf /\
   (forall i, a_fv V b i = if Nat.ltb i (freqs V din) then fv V din i else 0%Z) /\
   (forall i j, a_dat V b i j = vzero) /\
   (a_perf V b = false -> forall j, a_z0 V b j =
       if copyz din np && negb (per_f V din) && Nat.ltb j np then z0v V din j else vdef) /\
   (a_perf V b = true -> forall i j, a_fz0 V b i j =
-      if Nat.ltb i (freqs V din) && Nat.ltb j np then z0vv V din i j else vdef) /\
+      if copyz din np && Nat.ltb i (freqs V din) && Nat.ltb j np then z0vv V din i j else vdef).
+
+Definition setup_facts (din : vd) (nr nc : nat) (b : arr) : Prop :=
+  stage_facts (setup_perf din (Nat.max nr nc)) din nr nc b /\
   a_ftype V b = ftype V din /\ a_fmt V b = fmt V din /\ a_fprec V b = fprec V din /\ a_dprec V b = dprec V din.
 
-Lemma setup_spec din a0 nr nc :
+(* stage 1: init, frequency vector, impedances *)
+Lemma setup_spec1 din a0 nr nc :
   Inv din -> (Z.of_nat (nr * nc) <= INT_MAX)%Z ->
-  exists b, spec_run_ok a0 (setup_ops V din nr nc) = (b, ok V) /\ setup_facts din nr nc b.
+  exists a3, spec_run_ok a0 (setup_ops1 V din nr nc) = (a3, ok V) /\
+             stage_facts (copied_perf din (Nat.max nr nc)) din nr nc a3.
 Proof.
-  intros HI Hm. destruct HI as (_ & _ & _ & _ & _ & P1 & P2 & P3 & _).
-  unfold setup_ops. set (F := freqs V din). set (np := Nat.max nr nc).
+  intros HI Hm.
+  unfold setup_ops1. set (F := freqs V din). set (np := Nat.max nr nc).
   cbn [spec_run_ok ArraySpec.spec_step]. unfold spec_init, spec_resize_op.
   change (resize_cond 0 0 0 0) with (Some VUNDEF). cbn [fst].
   rewrite (resize_cond_undef nr nc F Hm). cbn [o_ret ok snd]. rewrite !Nat2Z.id.
   (* the array after init and set_frequency_vector *)
-  match goal with |- context [spec_run_ok ?x (_ ++ _)] => set (a2 := x) end.
+  match goal with |- context [spec_run_ok ?x (if _ then _ else _)] => set (a2 := x) end.
   assert (A2 : a_ty V a2 = VUNDEF /\ a_rows V a2 = nr /\ a_cols V a2 = nc /\ a_freqs V a2 = F /\
                a_perf V a2 = false /\
                (forall i, a_fv V a2 i = if Nat.ltb i F then fv V din i else 0%Z) /\
@@ -151,59 +172,95 @@ Proof.
     - rewrite Nat.min_0_r. reflexivity. }
   clearbody a2. destruct A2 as (T1 & T2 & T3 & T4 & T5 & T6 & T7 & T8).
   assert (Pa : a_ports V a2 = np) by (unfold a_ports; rewrite T2, T3; reflexivity).
-  (* the z0 segment *)
-  assert (Z3 : exists a3,
-     spec_run_ok a2 (if Nat.ltb (ports V din) np then []
-                     else if per_f V din
-                          then map (fun f => OSetFz0Vec V (Z.of_nat f) (map (z0vv V din f) (seq 0 np))) (seq 0 F)
-                          else [OSetZ0Vec V (map (z0v V din) (seq 0 np))]) = (a3, ok V) /\
-     a_ty V a3 = VUNDEF /\ a_rows V a3 = nr /\ a_cols V a3 = nc /\ a_freqs V a3 = F /\
-     a_perf V a3 = setup_perf din np /\
-     (forall i, a_fv V a3 i = if Nat.ltb i F then fv V din i else 0%Z) /\
-     (forall i j, a_dat V a3 i j = vzero) /\
-     (a_perf V a3 = false -> forall j, a_z0 V a3 j =
-        if copyz din np && negb (per_f V din) && Nat.ltb j np then z0v V din j else vdef) /\
-     (a_perf V a3 = true -> forall i j, a_fz0 V a3 i j =
-        if Nat.ltb i F && Nat.ltb j np then z0vv V din i j else vdef)).
-  { unfold setup_perf, copyz. fold F.
-    destruct (Nat.ltb (ports V din) np) eqn:Ec; cbn [negb andb].
-    - exists a2. cbn. repeat split; auto; intros; try congruence; try apply T8.
-    - destruct (per_f V din) eqn:Ep; cbn [negb andb].
-      + destruct (fz0_loop (fun f => map (z0vv V din f) (seq 0 np)) F a2) as (b & Eb & Sb & B0 & B1); [lia|].
-        unfold fz0_op in Eb. exists b. split; [exact Eb|].
-        destruct Sb as (S1 & S2 & S3 & S4 & S5 & S6 & S7 & _).
-        rewrite S1, S2, S3, S4, S5, S6, S7.
-        destruct (Nat.eqb_spec F 0) as [E0|E0]; cbn [negb].
-        * rewrite (B0 E0). repeat split; auto; intros; try congruence; try apply T8.
-        * destruct (B1 E0) as [Q1 Q2]. repeat split; auto; intros; try congruence.
-          rewrite Q2, Pa. unfold fz0_base. rewrite T5.
-          bd; auto; try (rewrite nth_map_seq by assumption; reflexivity); apply T8.
-      + cbn [spec_run_ok ArraySpec.spec_step o_ret ok]. eexists. split; [reflexivity|].
-        cbn [with_z0 a_ty a_rows a_cols a_freqs a_perf a_fv a_dat a_z0 a_fz0].
-        repeat split; auto; intros; try congruence.
-        rewrite Pa. unfold z0_base. rewrite T5.
-        bd; auto; try (rewrite nth_map_seq by assumption; reflexivity); apply T8. }
-  destruct Z3 as (a3 & E3 & U1 & U2 & U3 & U4 & U5 & U6 & U7 & U8 & U9).
-  rewrite spec_run_ok_app, E3. cbn [snd fst o_ret ok].
-  cbn [spec_run_ok ArraySpec.spec_step].
+  unfold stage_facts, copied_perf, copyz. fold F np.
+  destruct (Nat.ltb (ports V din) np) eqn:Ec; cbn [negb andb].
+  - exists a2. cbn. repeat split; auto; intros; try congruence; try apply T8.
+  - destruct (per_f V din) eqn:Ep; cbn [negb andb].
+    + destruct (fz0_loop (fun f => map (z0vv V din f) (seq 0 np)) F a2) as (b & Eb & Sb & B0 & B1); [lia|].
+      unfold fz0_op in Eb. exists b. split; [exact Eb|].
+      destruct Sb as (S1 & S2 & S3 & S4 & S5 & S6 & S7 & _).
+      rewrite S1, S2, S3, S4, S5, S6, S7.
+      destruct (Nat.eqb_spec F 0) as [E0|E0]; cbn [negb].
+      * rewrite (B0 E0). repeat split; auto; intros; try congruence; try apply T8.
+      * destruct (B1 E0) as [Q1 Q2]. repeat split; auto; intros; try congruence.
+        rewrite Q2, Pa. unfold fz0_base. rewrite T5.
+        bd; auto; try (rewrite nth_map_seq by assumption; reflexivity); apply T8.
+    + cbn [spec_run_ok ArraySpec.spec_step o_ret ok]. eexists. split; [reflexivity|].
+      cbn [with_z0 a_ty a_rows a_cols a_freqs a_perf a_fv a_dat a_z0 a_fz0].
+      repeat split; auto; intros; try congruence.
+      rewrite Pa. unfold z0_base. rewrite T5.
+      bd; auto; try (rewrite nth_map_seq by assumption; reflexivity); apply T8.
+Qed.
+
+(* stage 2 (repair DD2): the destination is put into per-frequency mode when the source is *)
+Definition to_fz0_arr (a : arr) : arr := if a_perf V a then a else with_fz0 V a (fz0_base V vdef a).
+Definition switch (din : vd) (a : arr) : arr := if dd2_fixed && per_f V din then to_fz0_arr a else a.
+Definition switch_vd (din d : vd) : vd := if dd2_fixed && per_f V din then convert_to_fz0 V vdef fixed d else d.
+
+Lemma switch_facts din nr nc a3 :
+  stage_facts (copied_perf din (Nat.max nr nc)) din nr nc a3 ->
+  stage_facts (setup_perf din (Nat.max nr nc)) din nr nc (switch din a3).
+Proof.
+  intros (U1 & U2 & U3 & U4 & U5 & U6 & U7 & U8 & U9).
+  unfold switch, setup_perf. destruct dd2_fixed; cbn [andb]; [|repeat split; assumption].
+  destruct (per_f V din) eqn:Ep.
+  2:{ assert (Ec : copied_perf din (Nat.max nr nc) = false) by (unfold copied_perf; rewrite Ep, andb_false_r; reflexivity).
+      rewrite Ec in U5. unfold stage_facts. rewrite Ep in *. repeat split; assumption. }
+  unfold to_fz0_arr. destruct (a_perf V a3) eqn:Ea.
+  - unfold stage_facts. repeat split; auto; intros; congruence.
+  - unfold stage_facts. cbn [with_fz0 a_ty a_rows a_cols a_freqs a_perf a_fv a_dat a_z0 a_fz0].
+    repeat split; auto; try (intros; congruence). intros _ i j.
+    unfold fz0_base. rewrite Ea, U4. rewrite (U8 eq_refl j). cbn [negb]. rewrite andb_false_r. cbn [andb].
+    unfold copied_perf in U5. rewrite Ep, andb_true_r in U5.
+    destruct (copyz din (Nat.max nr nc)); cbn [andb] in *; [|bd; reflexivity].
+    destruct (Nat.eqb_spec (freqs V din) 0) as [E0|E0]; [|discriminate U5]. rewrite E0. bd; auto; lia.
+Qed.
+
+Lemma to_fz0_refines d a : Inv d -> refines d a -> refines (convert_to_fz0 V vdef fixed d) (to_fz0_arr a).
+Proof.
+  intros HI H. pose proof HI as (I1 & I2 & I3 & (K1 & K2 & K3 & K4) & _). pose proof H as H0.
+  destruct H as (E1 & E2 & E3 & E4 & E5 & Efv & Edat & Ez0 & Efz0 & E6 & E7 & E8 & E9).
+  cbn [ArraySpec.abs a_ty a_rows a_cols a_freqs a_perf a_fv a_dat a_z0 a_fz0 a_ftype a_fmt a_fprec a_dprec] in *.
+  unfold convert_to_fz0, to_fz0_arr. rewrite <- E5.
+  destruct (per_f V d) eqn:Ep.
+  - exact H0.
+  - unfold RefineProofs.refines, ArraySpec.arr_eq.
+    cbn -[Nat.ltb]. cbn [q_d6 fixed]. repeat split; auto; try (intros; congruence).
+    intros _ i j. unfold fz0_base. rewrite <- E5, <- E4. rewrite <- (Ez0 eq_refl j).
+    unfold ports in *. bd; auto; try lia; symmetry; apply K3; auto; lia.
+Qed.
+
+Lemma switch_refines din d a : Inv d -> refines d a -> refines (switch_vd din d) (switch din a) /\ Inv (switch_vd din d).
+Proof.
+  intros HI H. unfold switch_vd, switch. destruct (dd2_fixed && per_f V din); [|split; assumption].
+  split; [apply to_fz0_refines; assumption|apply convert_to_fz0_inv; exact HI].
+Qed.
+
+(* stage 3: the save options *)
+Lemma setup_spec2 din a3 : Inv din ->
+  exists b, spec_run_ok a3 (setup_ops2 V din) = (b, ok V) /\
+            b = with_meta V a3 (ftype V din) (fmt V din) (fprec V din) (dprec V din).
+Proof.
+  intros (_ & _ & _ & _ & _ & P1 & P2 & P3 & _).
+  unfold setup_ops2. cbn [spec_run_ok ArraySpec.spec_step].
   destruct (Z.leb_spec 0 (ftype V din)); [|lia]. destruct (Z.leb_spec (ftype V din) 3); [|lia].
   cbn [andb o_ret ok].
   destruct (Z.ltb_spec (fprec V din) 1); [lia|]. cbn [o_ret ok].
   destruct (Z.ltb_spec (dprec V din) 1); [lia|]. cbn [o_ret ok].
-  eexists. split; [reflexivity|].
-  unfold setup_facts. cbn [with_meta a_ty a_rows a_cols a_freqs a_perf a_fv a_dat a_z0 a_fz0 a_ftype a_fmt
-                          a_fprec a_dprec]. fold F np.
-  repeat split; auto.
+  eexists. split; reflexivity.
 Qed.
 
-
 (* ---------------------------------------------------------------- set-up on the model *)
-Lemma setup_facts_transfer din nr nc a b :
-  ArraySpec.arr_eq V a b -> setup_facts din nr nc b -> setup_facts din nr nc a.
+Lemma stage_facts_transfer pf din nr nc a b :
+  a_ty V a = a_ty V b -> a_rows V a = a_rows V b -> a_cols V a = a_cols V b -> a_freqs V a = a_freqs V b ->
+  a_perf V a = a_perf V b ->
+  (forall i, a_fv V a i = a_fv V b i) -> (forall i j, a_dat V a i j = a_dat V b i j) ->
+  (a_perf V a = false -> forall j, a_z0 V a j = a_z0 V b j) ->
+  (a_perf V a = true -> forall i j, a_fz0 V a i j = a_fz0 V b i j) ->
+  stage_facts pf din nr nc b -> stage_facts pf din nr nc a.
 Proof.
-  intros (E1 & E2 & E3 & E4 & E5 & Efv & Edat & Ez0 & Efz0 & E6 & E7 & E8 & E9)
-         (F1 & F2 & F3 & F4 & F5 & F6 & F7 & F8 & F9 & F10 & F11 & F12 & F13).
-  unfold setup_facts. rewrite E1, E2, E3, E4, E5, E6, E7, E8, E9.
+  intros E1 E2 E3 E4 E5 Efv Edat Ez0 Efz0 (F1 & F2 & F3 & F4 & F5 & F6 & F7 & F8 & F9).
+  unfold stage_facts. rewrite E1, E2, E3, E4, E5.
   repeat split; auto; intros.
   - rewrite Efv. apply F6.
   - rewrite Edat. apply F7.
@@ -214,17 +271,27 @@ Qed.
 Lemma setup_out_facts din dout k :
   Inv din -> Inv dout ->
   (Z.of_nat (out_rows V din k * out_cols V din k) <= INT_MAX)%Z ->
-  let r := setup_out V vzero vdef fixed din dout k in
+  let r := setup_out V vzero vdef fixed dd2_fixed din dout k in
   snd r = ok V /\ Inv (fst r) /\
   setup_facts din (out_rows V din k) (out_cols V din k) (ArraySpec.abs V (fst r)).
 Proof.
   intros HI HO Hm. cbv zeta. unfold setup_out.
-  destruct (run_ok_sim (setup_ops V din (out_rows V din k) (out_cols V din k)) dout (ArraySpec.abs V dout) HO
-              (refines_refl V dout)) as (E & R & I').
-  destruct (setup_spec din (ArraySpec.abs V dout) _ _ HI Hm) as (b & Eb & Fb).
-  rewrite Eb in E, R. cbn [fst snd] in E, R.
-  split; [exact E|]. split; [exact I'|].
-  eapply setup_facts_transfer; [exact R|exact Fb].
+  set (nr := out_rows V din k) in *. set (nc := out_cols V din k) in *.
+  destruct (run_ok_sim (setup_ops1 V din nr nc) dout (ArraySpec.abs V dout) HO (refines_refl V dout)) as (E & R & I').
+  destruct (setup_spec1 din (ArraySpec.abs V dout) nr nc HI Hm) as (a3 & Ea & Fa).
+  rewrite Ea in E, R. cbn [fst snd] in E, R.
+  destruct (run_ok dout (setup_ops1 V din nr nc)) as [d1 r1]. cbn [fst snd] in E, R, I'. subst r1. cbn [o_ret ok].
+  fold (switch_vd din d1).
+  destruct (switch_refines din d1 a3 I' R) as [R2 I2].
+  destruct (run_ok_sim (setup_ops2 V din) (switch_vd din d1) (switch din a3) I2 R2) as (E3 & R3 & I3).
+  destruct (setup_spec2 din (switch din a3) HI) as (b & Eb & Hb).
+  rewrite Eb in E3, R3. cbn [fst snd] in E3, R3.
+  split; [exact E3|]. split; [exact I3|].
+  pose proof (switch_facts din nr nc a3 Fa) as Fs.
+  destruct R3 as (E1 & E2 & E3' & E4 & E5 & Efv & Edat & Ez0 & Efz0 & E6 & E7 & E8 & E9).
+  subst b. cbn [with_meta a_ty a_rows a_cols a_freqs a_perf a_fv a_dat a_z0 a_fz0 a_ftype a_fmt a_fprec a_dprec] in *.
+  split; [|repeat split; assumption].
+  exact (stage_facts_transfer _ din nr nc _ (switch din a3) E1 E2 E3' E4 E5 Efv Edat Ez0 Efz0 Fs).
 Qed.
 
 (* ---------------------------------------------------------------- what conv_spec implies *)
@@ -270,7 +337,7 @@ Qed.
 (* ---------------------------------------------------------------- the result of vnadata_convert *)
 Section Result.
 Variable conv : fname -> nat -> list V -> list V -> list V.
-Notation convertf := (convert V vzero vdef fixed conv).
+Notation convertf := (convert V vzero vdef fixed dd2_fixed conv).
 
 Definition conv_len (din : vd) (cs : convsel) : nat :=
   match cs_kind cs with KXtoI => rows V din | _ => rows V din * rows V din end.
@@ -387,9 +454,9 @@ Proof.
     destruct Sh as [Hsq _]. rewrite <- Hsq in *. rewrite Nat.ltb_irrefl. lia. }
   pose proof (setup_out_facts din dout (cs_kind cs) HI HO Hm) as (Es & Ie & Fe).
   unfold convert. rewrite Ht, Hs, Hd. cbn [negb].
-  destruct (setup_out V vzero vdef fixed din dout (cs_kind cs)) as [e x] eqn:Ee. cbn [fst snd] in Es, Ie, Fe.
+  destruct (setup_out V vzero vdef fixed dd2_fixed din dout (cs_kind cs)) as [e x] eqn:Ee. cbn [fst snd] in Es, Ie, Fe.
   subst x. cbn [o_ret ok].
-  destruct Fe as (G1 & G2 & G3 & G4 & G5 & G6 & G7 & G8 & G9 & G10 & G11 & G12 & G13).
+  destruct Fe as ((G1 & G2 & G3 & G4 & G5 & G6 & G7 & G8 & G9) & G10 & G11 & G12 & G13).
   cbn [ArraySpec.abs a_ty a_rows a_cols a_freqs a_perf a_fv a_dat a_z0 a_fz0 a_ftype a_fmt a_fprec a_dprec] in *.
   pose proof Ie as (J1 & J2 & J3 & _).
   unfold out_perf, conv_target, conv_dat, conv_len.
@@ -412,8 +479,9 @@ Proof.
       * rewrite G8 by congruence. unfold setup_perf, copyz, ports in *.
         destruct (per_f V din) eqn:Ep; cbn [negb andb]; [rewrite andb_false_r; reflexivity|].
         rewrite andb_true_r. bd; auto; try lia; symmetry; apply K3; auto; lia.
-      * rewrite G9 by congruence. unfold setup_perf, copyz, ports in *.
-        destruct (per_f V din) eqn:Ep; [|rewrite andb_false_r in *; cbn in *; congruence].
+      * rewrite G9 by congruence.
+        assert (Ep : per_f V din = true) by (match goal with H0 : setup_perf din ?n = true |- _ => exact (setup_perf_true din n H0) end).
+        unfold copyz, ports in *.
         bd; auto; try lia; symmetry; apply K4; auto; lia.
   - (* matrix to matrix *)
     destruct Sh as [Hsq Hv]. rewrite <- Hsq in *. rewrite Nat.max_id in *. rewrite G2, G3, G4 in *.
@@ -435,8 +503,9 @@ Proof.
       * rewrite G8 by congruence. unfold setup_perf, copyz, ports in *. rewrite Nat.max_id in *.
         destruct (per_f V din) eqn:Ep; cbn [negb andb]; [rewrite andb_false_r; reflexivity|].
         rewrite andb_true_r. bd; auto; try lia; symmetry; apply K3; auto; lia.
-      * rewrite G9 by congruence. unfold setup_perf, copyz, ports in *. rewrite Nat.max_id in *.
-        destruct (per_f V din) eqn:Ep; [|rewrite andb_false_r in *; cbn in *; congruence].
+      * rewrite G9 by congruence.
+        assert (Ep : per_f V din = true) by (match goal with H0 : setup_perf din ?n = true |- _ => exact (setup_perf_true din n H0) end).
+        unfold copyz, ports in *. rewrite Nat.max_id in *.
         bd; auto; try lia; symmetry; apply K4; auto; lia.
   - (* matrix to Zin *)
     destruct Sh as [Hsq Hz]. subst nt. rewrite <- Hsq in *. rewrite Nat.max_id in *.
@@ -459,8 +528,9 @@ Proof.
       * rewrite G8 by congruence. unfold setup_perf, copyz, ports in *.
         destruct (per_f V din) eqn:Ep; cbn [negb andb]; [rewrite andb_false_r; reflexivity|].
         rewrite andb_true_r. bd; auto; try lia; symmetry; apply K3; auto; lia.
-      * rewrite G9 by congruence. unfold setup_perf, copyz, ports in *.
-        destruct (per_f V din) eqn:Ep; [|rewrite andb_false_r in *; cbn in *; congruence].
+      * rewrite G9 by congruence.
+        assert (Ep : per_f V din = true) by (match goal with H0 : setup_perf din ?n = true |- _ => exact (setup_perf_true din n H0) end).
+        unfold copyz, ports in *.
         bd; auto; try lia; symmetry; apply K4; auto; lia.
 Qed.
 
